@@ -40,7 +40,32 @@ def params(draw, tier):
     p["scale2"] = draw(st.sampled_from([1e-3, 0.1, 7.0, 1e3]))
     # spacing of the sample points along each interface: uniform, or crowded towards one end (t -> t^2, t^0.5)
     p["tpow"] = draw(st.sampled_from([1.0, 1.0, 2.0, 0.5]))
+    # arc tissues in which a drawn part of the internal interfaces is exactly straight (equation p_a - p_b = 0)
+    p["straighten"] = draw(st.sampled_from([None, None, {"frac": draw(st.sampled_from([0.2, 0.5, 0.8])),
+                                                         "seed": draw(st.integers(0, 2 ** 32 - 1))}]))
     return p
+
+
+def straighten_some(t, nint, spec):
+    """Replace a drawn subset of the internal arcs by their chords; None if a cell stops being a simple polygon."""
+    from dataclasses import replace
+    from .c07 import _simple
+    rng = PRNG(spec["seed"])
+    ridges = []
+    n = 0
+    for r in t.ridges:
+        if r.c is not None and r.left is not None and r.right is not None and rng.uniform() < spec["frac"]:
+            ridges.append(replace(r, c=None, theta=0.0))
+            n += 1
+        else:
+            ridges.append(r)
+    t2 = replace(t, ridges=ridges)
+    for c in t2.cells:
+        toks = t2.cell_polygon(c, lambda k: nint[k])
+        pts = [t2.J[tok[1]] if tok[0] == "J" else t2.points(tok[1], nint[tok[1]])[tok[2]] for tok in toks]
+        if not _simple(pts):
+            return None, 0
+    return t2, n
 
 
 def setup(t, nint, lab, tensions):
@@ -107,6 +132,12 @@ def check_case(p, ctx):
     t0 = gen.apply_sub(t0, p, connected=True, no_pinch=True)
     nint = gen.n_int_func(t0, p)
     t, _ = gen.apply_pose(t0, p.get("pose"), nint)
+    mixed = False
+    if p.get("straighten") and t.pole is not None:
+        t_mixed, n_str = straighten_some(t, nint, p["straighten"])
+        if t_mixed is not None and n_str:
+            t, mixed = t_mixed, True
+            ctx.count("mixed-straight-and-curved-internal-interfaces")
     internal, amb = t.classify_ridges(nint)
     if len(internal) < 2:
         ctx.count("trivial:<2 internal interfaces")
@@ -234,7 +265,8 @@ def check_case(p, ctx):
             if np.max(np.abs(pres)) > 1e-8 * max(T.values()) + 50 * floor_sum:
                 return ctx.violation("straight-tissue-pressure", p, observed=float(np.max(np.abs(pres))), expected=0.0)
             ctx.count("physics:straight-all-zero")
-        elif min(nint[ri] for ri in internal) >= 3 and len(idx) >= 6 and not p.get("sub") and p.get("tpow", 1.0) == 1.0:
+        elif min(nint[ri] for ri in internal) >= 3 and len(idx) >= 6 and not p.get("sub") and p.get("tpow", 1.0) == 1.0 \
+                and not mixed:
             p_an = np.array([t.pressure(c) for c in cells_i])
             # ideal solution of the stated equations: exact tensions, exact turning, own least squares
             Li = np.zeros((len(internal), len(idx)))
